@@ -224,36 +224,9 @@ fn c05_cm3_accuracy() {
     kani::cover!(s == 20 && tr == 5);
 }
 
-// macro average over the classes of the one-vs-all precision TP_i / (TP_i + FP_i)
-// @unit class=bounded tier=thorough mem=heavy bound="3x3,cells 0..1" fns=linfa::metrics_classification::ConfusionMatrix::precision
-#[kani::proof]
-#[kani::unwind(11)]
-#[kani::solver(kissat)]
-#[kani::stub(alloc::fmt::format, fmt_stub)]
-fn c05_cm3_precision_macro_textbook() {
-    let c = cells::<3>(1);
-    let cm = cm_of(&c);
-    let mut q = [0f32; 3];
-    for i in 0..3 { let (tp, fp, _fn, _tn) = ova(&c, i); q[i] = tp as f32 / (tp + fp) as f32; }
-    assert!(mean3_any_order(cm.precision(), q[0], q[1], q[2]));
-    kani::cover!(!cm.precision().is_nan() && c[0][1] != c[1][0]);
-}
-
-// macro average over the classes of the one-vs-all recall TP_i / (TP_i + FN_i)
-// @unit class=bounded tier=thorough mem=heavy bound="3x3,cells 0..1" fns=linfa::metrics_classification::ConfusionMatrix::recall
-#[kani::proof]
-#[kani::unwind(11)]
-#[kani::solver(kissat)]
-#[kani::stub(alloc::fmt::format, fmt_stub)]
-fn c05_cm3_recall_macro_textbook() {
-    let c = cells::<3>(1);
-    let cm = cm_of(&c);
-    let mut q = [0f32; 3];
-    for i in 0..3 { let (tp, _fp, fnn, _tn) = ova(&c, i); q[i] = tp as f32 / (tp + fnn) as f32; }
-    assert!(mean3_any_order(cm.recall(), q[0], q[1], q[2]));
-    kani::cover!(!cm.recall().is_nan() && c[0][1] != c[1][0]);
-}
-
+// (The 3-class macro averages of precision / recall -- mean over the classes of the one-vs-all scores -- did
+// not finish within 600 s even for cells 0..1; they are the composition of split_one_vs_all (3x3 unit below)
+// and the binary scores (2x2 units above) and are left undecided.)
 // @unit class=bounded tier=thorough mem=heavy bound="3x3,cells 0..3,sqrt uninterpreted" fns=linfa::metrics_classification::ConfusionMatrix::mcc
 #[kani::proof]
 #[kani::unwind(11)]
@@ -269,7 +242,7 @@ fn c05_cm3_mcc_roots() {
     kani::cover!(a > 0 && b > 0 && a != b);
 }
 
-// @unit class=bounded tier=thorough mem=heavy bound="3x3,cells 0..4,both marginal terms perfect squares" fns=linfa::metrics_classification::ConfusionMatrix::mcc
+// @unit class=bounded tier=thorough mem=heavy timeout=1500 bound="3x3,cells 0..4,both marginal terms perfect squares" fns=linfa::metrics_classification::ConfusionMatrix::mcc
 #[kani::proof]
 #[kani::unwind(11)]
 #[kani::solver(kissat)]
@@ -392,7 +365,7 @@ fn trapz_case<const N: usize>(monotone: bool) -> (f32, f32, Vec<(f32, f32)>) {
     (trapezoidal(&v), acc as f32 / 128.0, v)
 }
 
-// @unit class=bounded tier=quick bound="curve length 1..4, coordinates k/8" fns=linfa::metrics_classification::trapezoidal
+// @unit class=bounded tier=thorough bound="curve length 1..4, coordinates k/8" fns=linfa::metrics_classification::trapezoidal
 #[kani::proof]
 #[kani::unwind(6)]
 #[kani::stub(alloc::fmt::format, fmt_stub)]
@@ -438,7 +411,7 @@ fn nll(p: f32, y: bool) -> f32 {
 }
 fn prob() -> f32 { let p: f32 = kani::any(); kani::assume(p >= 0.0 && p <= 1.0); p }
 
-// @unit class=bounded tier=quick bound="n=1,2; p any f32 in [0,1]" fns=linfa::metrics_classification::BinaryClassification::log_loss
+// @unit class=bounded tier=quick bound="n=2; p any f32 in [0,1]" fns=linfa::metrics_classification::BinaryClassification::log_loss
 #[kani::proof]
 #[kani::unwind(7)]
 #[kani::stub(alloc::fmt::format, fmt_stub)]
@@ -485,3 +458,38 @@ fn c05_logloss_empty_is_error() {
     kani::cover!(r.is_err());
 }
 
+
+// ---------------------------------------------------------------- ROC construction (attempt; std sort)
+// @unit class=bounded tier=thorough timeout=400 bound="n=2, scores 1/4 and 3/4, one sample of each class" fns=linfa::metrics_classification::BinaryClassification::roc
+#[kani::proof]
+#[kani::unwind(6)]
+#[kani::stub(alloc::fmt::format, fmt_stub)]
+fn c05_roc_n2_fixed_scores() {
+    let y0: bool = kani::any();
+    let y = [y0, !y0];
+    let pr = [Pr::new(0.25), Pr::new(0.75)];
+    let roc = (&pr[..]).roc(&y[..]).unwrap();
+    let c = roc.get_curve();
+    assert!(c.len() >= 2 && c[0] == (0.0, 0.0) && c[c.len() - 1] == (1.0, 1.0));
+    // Mann-Whitney: the positive sample has the higher score iff y = [false, true]
+    assert!(roc.area_under_curve() == if y0 { 0.0 } else { 1.0 });
+    kani::cover!(y0);
+    kani::cover!(!y0);
+}
+
+// DESIGN section 8 #4: the smallest score is 0
+// @unit class=bounded tier=thorough timeout=400 bound="n=2, scores 0 and 3/4, one sample of each class" fns=linfa::metrics_classification::BinaryClassification::roc
+#[kani::proof]
+#[kani::unwind(6)]
+#[kani::stub(alloc::fmt::format, fmt_stub)]
+fn c05_roc_n2_zero_score() {
+    let y0: bool = kani::any();
+    let y = [y0, !y0];
+    let pr = [Pr::new(0.0), Pr::new(0.75)];
+    let roc = (&pr[..]).roc(&y[..]).unwrap();
+    let c = roc.get_curve();
+    assert!(c.len() >= 2 && c[0] == (0.0, 0.0) && c[c.len() - 1] == (1.0, 1.0));
+    assert!(roc.area_under_curve() == if y0 { 0.0 } else { 1.0 });
+    kani::cover!(y0);
+    kani::cover!(!y0);
+}
